@@ -81,32 +81,32 @@ def splitL (isSep : V → Bool) (grouping : Bool) : Bool → Option Nat → List
       else [] :: splitL isSep grouping true (m.map (· - 1)) xs
     else consHead x (splitL isSep grouping false m xs)
 
+/-- is `x` a separator?  (`sep_func(x)` taken for its truth value; `false` where it raises —
+    then `splitE` raises) -/
 def sepFn (sep : Sep) (x : V) : Bool :=
-  match sep with
-  | .none => x == V.none
-  | .scalar v => x == v
-  | .set vs => vs.contains x
-  | .fn f => (match f x with | .ok y => y.truthy | .error _ => false)
+  match isSepE sep x with
+  | .ok b => b
+  | .error _ => false
 
-/-- the first exception a callable separator raises on the items -/
-def sepFnErr (f : Fn) : List V → Option Err
+/-- the first exception the separator test raises on the items (an unhashable item against a
+    set of separators, a callable separator that raises, an item whose `==` raises) -/
+def sepErr (sep : Sep) : List V → Option Err
   | [] => none
-  | x :: xs => match f x with | .error e => some e | .ok _ => sepFnErr f xs
+  | x :: xs => match isSepE sep x with | .error e => some e | .ok _ => sepErr sep xs
 
 def splitE (sep : Sep) (m : Option Nat) (xs : List V) : Except Err (List V) :=
-  if (match sep with | .set _ => !(xs.all V.hashable) | _ => false) then .error "TypeError"
-  else match (match sep with | .fn f => sepFnErr f xs | _ => none) with
-    | some e => .error e
-    | none => .ok ((splitL (sepFn sep) (match sep with | .none => true | _ => false) true m xs).map V.list)
+  match sepErr sep xs with
+  | some e => .error e
+  | none => .ok ((splitL (sepFn sep) (match sep with | .none => true | _ => false) true m xs).map V.list)
 
-/-- an item is kept iff its key is not the key of an earlier item -/
+/-- an item is kept iff its key is not (as a set sees it: `V.key`) the key of an earlier item -/
 def uniqueAux (before : List V) : List (V × V) → List V
   | [] => []
   | (x, k) :: r => (if before.contains k then [] else [x]) ++ uniqueAux (before ++ [k]) r
 
 def uniqueE (key : Fn) (xs : List V) : Except Err (List V) := do
   let ks ← xs.mapM key
-  if ks.all V.hashable then return uniqueAux [] (xs.zip ks) else throw "TypeError"
+  if ks.all V.hashable then return uniqueAux [] (xs.zip (ks.map V.key)) else throw "TypeError"
 
 /-- `iter(x)` or `TypeError` -/
 def iterE (x : V) : Except Err (List V) :=
@@ -118,7 +118,10 @@ def flattenE (xs : List V) : Except Err (List V) := do
   let ys ← xs.mapM iterE
   return ys.flatten
 
-/-- `Iter(subspec, sentinel=…)` itself: apply `subspec`, drop `SKIP`s, end at `STOP` / the sentinel -/
+/-- `Iter(subspec, sentinel=…)` itself: apply `subspec`, drop `SKIP`s, end at `STOP` / the sentinel.
+    The sentinel is an *object*: the stream ends when that very object turns up (`is`), not at
+    an item that merely compares equal to it (`1.0` / `True` when the sentinel is `1`, an equal
+    string or tuple built elsewhere, an object whose `__eq__` says yes to everything). -/
 def baseE (sub : BaseFn) (sentinel : Option V) : List V → Except Err (List V)
   | [] => .ok []
   | x :: xs => do
@@ -126,7 +129,7 @@ def baseE (sub : BaseFn) (sentinel : Option V) : List V → Except Err (List V)
     | .skip => baseE sub sentinel xs
     | .stop => return []
     | .val v =>
-      if (match sentinel with | some s => v == s | none => false) then return []
+      if (match sentinel with | some s => v.is s | none => false) then return []      -- THE sentinel object
       else do let r ← baseE sub sentinel xs; return v :: r
 
 def refE : Kind → List V → Except Err (List V)
@@ -421,6 +424,8 @@ structure Facts where
                                               -- `target` only in `get_handler(…)`, `iterate(target)` and the error message
   glomitReversed : Bool                       -- `for … in reversed(self._iter_stack)`
   callbacks : List (String × String)          -- builder method → iterator function its callback calls
+  callbackWrites : List (String × String)     -- (method, statement): a stage callback (or a function nested in a builder
+                                              -- method) writes a variable of the method's frame — state per SPEC, not per stream
 
 def expectedCallbacks : List (String × String) :=
   [("map", "imap"), ("filter", "ifilter"), ("chunked", "chunked_iter"), ("windowed", "windowed_iter"),
@@ -431,6 +436,6 @@ def Facts.WF (f : Facts) : Bool :=
   f.iterSelfWrites.isEmpty && f.invokeSelfWrites.isEmpty && f.addOpNewList && f.addOpForwardsSentinel &&
   f.invokeCopies == [("constants", true), ("specs", true), ("star", true)] &&
   f.iterateSkipContinues && f.iterateStopReturns && f.iterateOnlyNexts && f.glomitReversed &&
-  f.callbacks == expectedCallbacks
+  f.callbacks == expectedCallbacks && f.callbackWrites.isEmpty
 
 end Glom.C17
